@@ -276,4 +276,211 @@ const (
 	b.execFunc = func(''', '''func (b *BatchNodeBuilder) WithExecFuncAny(fn func(context.Context, any) (any, error)) *BatchNodeBuilder {
 	b.cn.execFunc = func('''),
       why="the batch builder keeps its own pointer to the CustomNode it created and configures that one (replacing the exported embedded field afterwards has no effect on it)"),
+    # ---- fourth review round, batch / pool / store half ----
+    dict(id="alt4-pool-submit-holds-mutex", props=["C12", "C08"], allow=[0, 2], why="Submit holds a mutex (guarding a closed flag) across the channel send; a goroutine waiting for a sync.Mutex is not durably blocked under synctest, so the controller cannot make progress: inconclusive (exit 2) is admissible, an alarm is not",
+         edits=[("flyt.go", '''	wg      sync.WaitGroup
+	done    chan struct{}
+}''', '''	wg      sync.WaitGroup
+	done    chan struct{}
+	mu      sync.Mutex // guards closed; makes Submit after Close a no-op instead of a panic
+	closed  bool
+}'''),
+                ("flyt.go", '''func (p *WorkerPool) Submit(task func()) {
+	p.wg.Add(1)''', '''func (p *WorkerPool) Submit(task func()) {
+	p.mu.Lock()
+	defer p.mu.Unlock()
+	if p.closed {
+		return
+	}
+	p.wg.Add(1)'''),
+                ("flyt.go", '''func (p *WorkerPool) Close() {
+	close(p.done)
+	close(p.tasks)
+}''', '''func (p *WorkerPool) Close() {
+	p.mu.Lock()
+	defer p.mu.Unlock()
+	if p.closed {
+		return
+	}
+	p.closed = true
+	close(p.done)
+	close(p.tasks)
+}''')]),
+    dict(id="alt4-pool-wait-excludes-submit", props=["C12", "C08"], allow=[0, 2], why="Submit takes gate.RLock around wg.Add, Wait takes gate.Lock around wg.Wait (guard against Add concurrent with Wait); mutex waits are not observable under synctest: exit 2 admissible, exit 1 not",
+         edits=[("flyt.go", '''	wg      sync.WaitGroup
+	done    chan struct{}
+}''', '''	wg      sync.WaitGroup
+	done    chan struct{}
+	gate    sync.RWMutex
+}'''),
+                ("flyt.go", '''func (p *WorkerPool) Submit(task func()) {
+	p.wg.Add(1)''', '''func (p *WorkerPool) Submit(task func()) {
+	p.gate.RLock()
+	p.wg.Add(1)
+	p.gate.RUnlock()'''),
+                ("flyt.go", '''func (p *WorkerPool) Wait() {
+	p.wg.Wait()
+}''', '''func (p *WorkerPool) Wait() {
+	p.gate.Lock()
+	defer p.gate.Unlock()
+	p.wg.Wait()
+}''')]),
+    A("alt4-pool-elastic-with-idle-timeout", ["C08", "C12", "C06", "C19"],
+      ("flyt.go", "__POOL__", '''type WorkerPool struct {
+	workers int
+	tasks   chan func() // unbuffered hand-off
+	wg      sync.WaitGroup
+	done    chan struct{}
+	mu      sync.Mutex
+	running int // worker goroutines alive
+	idle    int // of those, parked waiting for a task
+}
+
+const poolIdleTimeout = 500 * time.Millisecond
+
+func NewWorkerPool(workers int) *WorkerPool {
+	if workers <= 0 {
+		workers = 1
+	}
+	return &WorkerPool{workers: workers, tasks: make(chan func()), done: make(chan struct{})}
+}
+
+func (p *WorkerPool) worker(first func()) {
+	first()
+	timer := time.NewTimer(poolIdleTimeout)
+	defer timer.Stop()
+	for {
+		p.mu.Lock()
+		p.idle++
+		p.mu.Unlock()
+		if !timer.Stop() {
+			select {
+			case <-timer.C:
+			default:
+			}
+		}
+		timer.Reset(poolIdleTimeout)
+		select {
+		case task, ok := <-p.tasks:
+			p.mu.Lock()
+			p.idle--
+			if !ok {
+				p.running--
+				p.mu.Unlock()
+				return
+			}
+			p.mu.Unlock()
+			task()
+		case <-timer.C:
+			p.mu.Lock()
+			p.idle--
+			p.running--
+			p.mu.Unlock()
+			return
+		case <-p.done:
+			p.mu.Lock()
+			p.idle--
+			p.running--
+			p.mu.Unlock()
+			return
+		}
+	}
+}
+
+func (p *WorkerPool) Submit(task func()) {
+	p.wg.Add(1)
+	wrapped := func() { defer p.wg.Done(); task() }
+	p.mu.Lock()
+	if p.idle == 0 && p.running < p.workers {
+		p.running++
+		p.mu.Unlock()
+		go p.worker(wrapped)
+		return
+	}
+	p.mu.Unlock()
+	for {
+		select {
+		case p.tasks <- wrapped:
+			return
+		case <-time.After(poolIdleTimeout / 4): // every worker may have timed out meanwhile
+			p.mu.Lock()
+			if p.running < p.workers {
+				p.running++
+				p.mu.Unlock()
+				go p.worker(wrapped)
+				return
+			}
+			p.mu.Unlock()
+		}
+	}
+}
+
+func (p *WorkerPool) Wait()  { p.wg.Wait() }
+func (p *WorkerPool) Close() { close(p.done) }
+'''),
+      why="elastic pool: workers are started on demand (at the latest 125 ms after Submit), exit after 500 ms idle; never more than `workers` alive"),
+    A("alt4-batch-prep-through-generic-route", ["C06", "C07", "C09", "C11", "C08", "C02", "C17"],
+      ("batch.go", '''	// Prep phase - returns []Result
+	prepResult, err := node.Prep(ctx, shared)
+	if err != nil {
+		return "", fmt.Errorf("run: prep failed: %w", err)
+	}
+
+	// Convert to []Result
+	var items []Result
+	switch v := prepResult.(type) {
+	case []Result:
+		items = v
+	case []any:
+		items = make([]Result, len(v))
+		for i, item := range v {
+			items[i] = NewResult(item)
+		}
+	default:
+		// Try to convert using ToSlice
+		slice := ToSlice(prepResult)
+		items = make([]Result, len(slice))
+		for i, item := range slice {
+			items[i] = NewResult(item)
+		}
+	}
+''', '''	var items []Result
+	if bn, ok := node.(*BatchNode); ok && bn.batchPrepFunc != nil {
+		typed, err := bn.batchPrepFunc(ctx, shared) // the documented route
+		if err != nil {
+			return "", fmt.Errorf("run: prep failed: %w", err)
+		}
+		items = typed
+	} else if bb, ok := node.(*BatchNodeBuilder); ok && bb.batchPrepFunc != nil {
+		typed, err := bb.batchPrepFunc(ctx, shared)
+		if err != nil {
+			return "", fmt.Errorf("run: prep failed: %w", err)
+		}
+		items = typed
+	} else {
+		prepResult, err := node.Prep(ctx, shared) // anything else: ToSlice, one item per element
+		if err != nil {
+			return "", fmt.Errorf("run: prep failed: %w", err)
+		}
+		slice := ToSlice(prepResult)
+		items = make([]Result, len(slice))
+		for i, item := range slice {
+			items[i] = NewResult(item)
+		}
+	}
+'''),
+      why="only the typed WithPrepFunc route yields items as they are; anything that comes through node.Prep is itemised by ToSlice (a []Result smuggled in through the swapped CustomNode becomes Result-wrapping-Result items)"),
+    A("alt4-newbatchnode-typed-options", ["C06", "C19", "C18", "C07"],
+      ("batch.go", '''func NewBatchNode(opts ...any) *BatchNodeBuilder {''', '''func NewBatchNode(opts ...NodeOption) *BatchNodeBuilder {'''),
+      ("batch.go", '''	for _, opt := range opts {
+		switch o := opt.(type) {
+		case NodeOption:
+			baseOpts = append(baseOpts, o)
+		case func(*BaseNode):
+			baseOpts = append(baseOpts, NodeOption(o))
+		}
+	}
+''', '''	baseOpts = append(baseOpts, opts...)
+'''),
+      why="NewBatchNode takes ...NodeOption instead of ...any; the harness must still build"),
 ]
